@@ -72,7 +72,55 @@ def read_file(req):
     return {"items": out}
 
 
-HANDLERS = dict(format=fmt, parse=parse, escsub=escsub, unescsub=unescsub, file_roundtrip=file_roundtrip, read_file=read_file)
+def md(req):
+    """op sequence on CaseInsensitiveOrderedMultiDict and, in parallel, on a
+    ConfigFile section through set/add/remove; the file is then written and read back."""
+    d = C.CaseInsensitiveOrderedMultiDict()
+    cf = C.ConfigFile()
+    errs = []
+    for o in req["ops"].split(";"):
+        if o == "_":
+            continue
+        p = o.split(":")
+        k = R(p[1])
+        e = "0"
+        if p[0] == "a":
+            d[k] = R(p[2]); cf.add((b"sec",), k, R(p[2]))
+        elif p[0] == "s":
+            d.set(k, R(p[2])); cf.set((b"sec",), k, R(p[2]))
+        else:
+            try:
+                del d[k]
+            except KeyError:
+                e = "1"
+            try:
+                cf.remove((b"sec",), k)
+                e2 = "0"
+            except KeyError:
+                e2 = "1"
+            if e != e2:
+                e = "X"
+        errs.append(e)
+    items = ",".join(hx(k) + "=" + hx(v) for k, v in d.items())
+    pr = []
+    for k in req["probes"].split(","):
+        k = R(k)
+        g = d.get(k)
+        pr.append(("none" if g is None else hx(g)) + "/" + "+".join(hx(v) for v in d.get_all(k)))
+    out = {"v": items + " " + "".join(errs) + " " + ",".join(pr) + " " + str(len(d))}
+    # the ConfigFile view: items of the section, then write + read back
+    cfitems = ",".join(hx(k) + "=" + hx(v) for k, v in cf.items((b"sec",)))
+    f = BytesIO(); cf.write_to_file(f)
+    try:
+        back = C.ConfigFile.from_file(BytesIO(f.getvalue()))
+        backitems = ",".join(hx(k) + "=" + hx(v) for k, v in back.items((b"sec",)))
+    except Exception as ex:
+        backitems = "exc:" + type(ex).__name__
+    out.update(cfitems=cfitems, backitems=backitems, file=hx(f.getvalue()))
+    return out
+
+
+HANDLERS = dict(md=md, format=fmt, parse=parse, escsub=escsub, unescsub=unescsub, file_roundtrip=file_roundtrip, read_file=read_file)
 for k in ("format", "parse", "escsub", "unescsub"):
     def wrap(f):
         def g(req):
